@@ -30,6 +30,18 @@ class RecordingPIO(PyramidIO):
         self._rec.end(key)
 
 
+def corrupt_one(stage, d):
+    """C19's 'unreadable input' fault: one input file keeps its header but loses the tail of its data, so that
+    it passes the header scan and fails when its pixels are read (wherever toasty reads them)."""
+    k = getattr(stage, "corrupt_input", None)
+    if k is None:
+        return
+    path = stage.col.paths[k % len(stage.col.paths)]
+    size = os.path.getsize(path)
+    with open(path, "r+b") as f:
+        f.truncate(max(2880, size - 2880 * max(1, (size // 2880) // 2)))
+
+
 def geometric_expected(col):
     """Tiles overlapped by each input's rectangle in the centred power-of-two
     tiling of the assembled mosaic (independent of StudyTiling)."""
@@ -71,6 +83,7 @@ class MultiTanStage(object):
 
     def populate(self, d):
         fitsgen.write_collection(self.col, os.path.join(d, "in"))
+        corrupt_one(self, d)
 
     def run(self, parallel, rec, env_dir=None):
         from toasty.multi_tan import MultiTanProcessor
@@ -116,6 +129,7 @@ class MultiWcsStage(object):
 
     def populate(self, d):
         fitsgen.write_collection(self.col, os.path.join(d, "in"))
+        corrupt_one(self, d)
 
     def run(self, parallel, rec, env_dir=None):
         from toasty.multi_wcs import MultiWcsProcessor
